@@ -1,4 +1,4 @@
-import SqiProofs.CurveBoundary
+import SqiProofs.CurveIsom
 import SqiProofs.BasisAlg
 
 /-! # C08 — x-only Montgomery curve arithmetic implements the elliptic-curve group law
@@ -378,6 +378,28 @@ theorem ec_j_inv_isomorphism_invariant {a a' s r : F} (h2c : (2 : F) ≠ 0)
   have : ec_j_inv E' * (a' ^ 2 - 4) * (a ^ 2 - 4) = ec_j_inv E * (a' ^ 2 - 4) * (a ^ 2 - 4) := by
     linear_combination (a ^ 2 - 4) * e' - (a' ^ 2 - 4) * e + 256 * c
   exact mul_right_cancel₀ hns' (mul_right_cancel₀ hns this)
+
+/-- **ec_isomorphism**: for `(A : C)`, `(A' : C')` with `a² ≠ 3`, equal j-invariants (cross-multiplied) and `sqrt`
+correct on the one ratio the code takes a root of, the returned `(Nx, Nz, D)` satisfies `D ≠ 0` and, with `s = Nx/D`:
+`3 - a'² = s²(3 - a²)`, `2a'³ - 9a' = s³(2a³ - 9a)` (the code's sign test), `Nz/D = (a' - s a)/3`. -/
+theorem ec_isomorphism_correct (h3 : (3 : F) ≠ 0) (sqrt : F → F) (E E' : EcCurve F) (a a' : F)
+    (hC : E.C ≠ 0) (hC' : E'.C ≠ 0) (hA : E.A = a * E.C) (hA' : E'.A = a' * E'.C) (hp : 3 - a ^ 2 ≠ 0)
+    (hj : (a' ^ 2 - 3) ^ 3 * (a ^ 2 - 4) = (a ^ 2 - 3) ^ 3 * (a' ^ 2 - 4))
+    (hsq : ∀ t : F, t = (3 - a' ^ 2) / (3 - a ^ 2) → sqrt t ^ 2 = t) :
+    let iso := ec_isomorphism sqrt E E'
+    iso.D ≠ 0 ∧ 3 - a' ^ 2 = (iso.Nx / iso.D) ^ 2 * (3 - a ^ 2) ∧
+    2 * a' ^ 3 - 9 * a' = (iso.Nx / iso.D) ^ 3 * (2 * a ^ 3 - 9 * a) ∧
+    iso.Nz / iso.D = (a' - iso.Nx / iso.D * a) / 3 :=
+  ec_isomorphism_ok h3 sqrt E E' a a' hC hC' hA hA' hp hj hsq
+
+/-- …and such constants define a map `x ↦ s x - (a' - s a)/3` (what `ec_iso_eval` applies, `ec_iso_eval_correct`) that
+sends `mont a` onto `mont a'`, and they force equal j-invariants (so the hypothesis `hj` above is also necessary). -/
+theorem ec_isomorphism_maps_curve {a a' s x : F} (h3 : (3 : F) ≠ 0) (H1 : 3 - a' ^ 2 = s ^ 2 * (3 - a ^ 2))
+    (H2 : 2 * a' ^ 3 - 9 * a' = s ^ 3 * (2 * a ^ 3 - 9 * a)) :
+    (s * x - (a' - s * a) / 3) ^ 3 + a' * (s * x - (a' - s * a) / 3) ^ 2 + (s * x - (a' - s * a) / 3)
+      = s ^ 3 * (x ^ 3 + a * x ^ 2 + x) ∧
+    (a' ^ 2 - 3) ^ 3 * (a ^ 2 - 4) = (a ^ 2 - 3) ^ 3 * (a' ^ 2 - 4) :=
+  ⟨iso_maps_curve_sw h3 H1 H2, iso_j_cross_sw h3 H1 H2⟩
 
 /-! ## lifting x-only points to (x, y): recover_y, lift_point, lift_basis (Okeya–Sakurai), difference_point -/
 
